@@ -138,6 +138,29 @@ def body(case, note):
         check(t.children[idx] is node, "insert() did not place the node at the index")
         del t.children[idx]
         check(tlo.get_html_string(indent, eol) == base, "removing the metadata node did not restore the markup")
+    # the same comparison when the children arrive through a `with tag:` block (sys.displayhook)
+    import sys
+
+    def via_with(nodes):
+        t = h.Tag("section")
+        saved = sys.displayhook
+        sys.displayhook = lambda v: None  # the enclosing hook that receives the tag on exit
+        try:
+            with t:
+                for n in nodes:
+                    sys.displayhook(build(n))
+        finally:
+            sys.displayhook = saved
+        return t
+
+    top_w = [r for r in roots if r["k"] in ("tag", "text", "meta", "dep", "headc")]
+    if top_w:
+        tw, to = via_with(top_w), via_with(strip(top_w))
+        a, b = tw.get_html_string(indent, eol), to.get_html_string(indent, eol)
+        check(a == b, "a tag filled through a with-block renders differently when metadata nodes were displayed in it", b, a)
+        exp_w = [o for o in tw.children if isinstance(o, h.HTMLDependency)]
+        n_meta = sum(1 for r in top_w if r["k"] in ("dep", "headc"))
+        check(len(tw.get_dependencies(dedup=False)) >= n_meta and len(exp_w) == n_meta, "dependencies displayed inside a with-block are not all kept as metadata children", n_meta, len(exp_w))
     acc: set = set()
     _positions(roots, acc)
     note(bool(acc & {"first", "only-children", "between-inline-and-block"}), *sorted(acc))
